@@ -73,6 +73,7 @@ def run(tier, seed, replay=None):
                     kvp = dict(t.split("=", 1) for t in line.split()[1:])
                     pinned.append((line, kvp["type"], vname.get(kvp["ver"], kvp["ver"]), int(kvp["seed"])))
             cases = pinned + cases
+        cases = cases + be.float_boundary_cases(12 if tier == "quick" else 60)
         samples = sorted(f for f in os.listdir(samples_dir) if f.endswith(".nif"))
         scases = ["save3 name=%s opts=%s" % (f, o) for f in samples for o in ("raw", "default")]
         # edited models: positions / texture coordinates set through the API to values no binary16 holds exactly
